@@ -445,6 +445,37 @@ def _late():
     GENERATORS.update({'C07': gen2.c07, 'C09': gen2.c09, 'C10': gen2.c10, 'C11': gen2.c11, 'C12': gen2.c12, 'C13': gen2.c13, 'C05': gen2.c05})
 
 
+def relay_variants(scens, tier, rng, every=4):
+    """clones of direct-topology scenarios run through the shipped relays: client - goat.Proxy - goat.Demux keyed by
+    source - Serve (topology 'pd'), with the calls spread over two client connections where that is possible"""
+    import copy
+    out = []
+    for i, s in enumerate(scens):
+        if s.get('rawsrv') or s.get('rawcli') or s.get('runner') or s.get('topo'):
+            continue
+        ops = s['steps']
+        if any(st.get('op') in ('stuck',) or (st.get('op') == 'fault' and st.get('what') in ('sread', 'swrite', 'stop', 'sreadeof')) or
+               (st.get('op') == 'arm' and st.get('gate', '').startswith('srv.')) for st in ops):
+            continue
+        nmsg = sum(1 for st in ops if st.get('op') == 'send') + sum(len(st.get('hp', [])) for st in ops)
+        if nmsg > 12 or any(h.get('o') == 'burst' for st in ops for h in st.get('hp', [])):
+            continue        # stay below the proxy's 16-slot per-destination buffer (known finding D11)
+        if tier == 'quick' and i % every:
+            continue
+        c = copy.deepcopy(s)
+        c['topo'] = 'pd'
+        c['tag'] = 'via proxy+demux: ' + c.get('tag', '')
+        calls = sorted({st['c'] for st in c['steps'] if st.get('op') in ('ucall', 'sopen')})
+        if len(calls) >= 2 and not c.get('manual'):
+            c['ncli'] = 2
+            where = {cc: 1 + (k % 2) for k, cc in enumerate(calls)}
+            for st in c['steps']:
+                if st.get('op') in ('ucall', 'sopen'):
+                    st['conn'] = where[st['c']]
+        out.append(c)
+    return out
+
+
 def generate(prop, tier, seed, genfn=None, first=1):
     _late()
     from . import props
@@ -458,6 +489,8 @@ def generate(prop, tier, seed, genfn=None, first=1):
         genfn = getattr(gen2, genfn)
     g = genfn or GENERATORS[prop]
     scens = g(tier, rng)
+    if prop in ('C01', 'C02', 'C03', 'C04') and genfn is None and not props.PROPS[prop].get('no_relay'):
+        scens = scens + relay_variants(scens, tier, rng, every=4 if prop != 'C04' else 12)
     for i, s in enumerate(scens):
         s['sc'] = first + i
         s.setdefault('steps', [])
